@@ -288,7 +288,7 @@ def gen_nearmiss(rng):
   """-> (source, description).  half of them are exactly well-typed, the others off by one somewhere"""
   w = rng.choice([1, 2, 3, 4, 7, 8, 9, 16, 31, 32, 33, 48, 49, 50, 63, 64, 65, 100])
   d = rng.choice([0, 0, 1, -1]) if w > 1 else rng.choice([0, 1])
-  shape = rng.randrange(17)
+  shape = rng.randrange(18)
   wa, wb, wo = w, w + d, w
   lit_k = rng.choice([w - 1, w, w + 1, w, w])
   lit = rng.choice([(1 << lit_k) - 1, 1 << lit_k, (1 << lit_k) + 1]) if lit_k >= 0 else 1
@@ -326,6 +326,11 @@ def gen_nearmiss(rng):
     l, r = ("s.a", one) if rng.random() < 0.5 else (one, "s.a")
     stmt = rng.choice([f"s.o @= {l} {op} {r}", f"s.o1 @= {l} {cmp_} {r}", f"s.o @= ({l} if s.c else {r})", f"s.o @= {one}", f"s.o1 @= {l} {op} {r}",
                        f"s.o1 @= {one} {op} s.c", f"s.o1 @= {one} {cmp_} s.c"])
+  elif shape == 17:
+    # negative constants assigned directly: the accepted range of an n-bit target is -2**(n-1) .. 2**n-1
+    h = 1 << (w - 1)
+    v = rng.choice([h - 1, h, h + 1, h + 1, (1 << w) - 1, 1, 2]) if w > 1 else rng.choice([1, 2])
+    stmt = rng.choice([f"s.o @= -{v}", f"s.o @= -({v})", f"s.o @= ~{v - 1}"]); wb = w
   else: stmt = f"s.o @= concat(s.a[0:{max(1, w // 2)}], s.b[0:{w - max(1, w // 2) if w > 1 else 1}])"
   return NM_TMPL.format(wa=wa, wb=max(1, wb), wo=wo, stmt=stmt), {"shape": shape, "w": w, "delta": d, "literal": lit, "stmt": stmt}
 
